@@ -474,7 +474,7 @@ Hypothesis Hwf : wf_desc D.
 Hypothesis Hnum : forall m, In m (d_msgs D) -> NoDup (map f_num (m_fields m)).
 
 Lemma keys_nodup : NoDup (all_keys D).
-Proof. exact (proj1 (proj2 Hwf)). Qed.
+Proof. exact (proj2 (proj1 Hwf)). Qed.
 
 Lemma exposed_key_in m k : exposed_key_b m k = true -> In k (real_oneof_keys m).
 Proof.
@@ -694,9 +694,9 @@ Definition wf_paths (D : desc) : Prop :=
    the message the schema describes, to a field of the matching kind *)
 Theorem reflect_consistent D fs S : wf_paths D -> reflect D fs = Ok S -> set_consistent D S = true.
 Proof.
-  intros [Hwf Hnum] HS.
-  destruct (reflect_ok_guarantees D Hwf fs S HS) as (_ & _ & Hcl & Hnames & Hnp).
-  pose proof (reflect_final D Hwf fs) as Hfin. rewrite HS in Hfin. destruct Hfin as [(HI & _ & Hnd) _].
+  intros [[Hwk Hj] Hnum] HS.
+  destruct (reflect_ok_guarantees D Hwk fs S HS) as (_ & _ & Hcl & Hnames & Hnp).
+  pose proof (reflect_final D Hwk fs) as Hfin. rewrite HS in Hfin. destruct Hfin as [(HI & _ & Hnd) _].
   pose proof (reflect_origin D fs S HS) as HO.
   assert (Hclosed : forall k r, lookup S k = Some (Linked r) ->
             forall k2, In k2 (root_refs r) -> exists r2, lookup S k2 = Some (Linked r2)).
@@ -706,7 +706,7 @@ Proof.
     destruct (lookup S k2) as [[|r2]|]; try discriminate. eauto. }
   unfold set_consistent. apply forallb_forall. intros [k e] Hin. cbn [fst snd].
   pose proof (lookup_In S Hnd k e Hin) as Hl. destruct e as [|r]; [exfalso; apply (Hnp k Hl)|].
-  apply (entry_consistent_of D Hwf Hnum S HO HI Hclosed Hnames k r Hl).
+  apply (entry_consistent_of D (conj Hwk Hj) Hnum S HO HI Hclosed (Hnames Hj) k r Hl).
 Qed.
 
 (* a decision procedure for wf_paths *)
